@@ -243,7 +243,8 @@ def h_copies(env):
 def units(tier):
     u = []
     cats = [("s2 " + n, ["s2", n]) for n in ("oneofs", "nested", "optionals", "mapmsg", "packed", "recursive", "emptymsg")]
-    cats += [("s1 bytes singular", ["s1", "bytes", "singular"]), ("map bool->bytes", ["s1map", "bool", "bytes"])]
+    cats += [("s1 bytes singular", ["s1", "bytes", "singular"]), ("map bool->bytes", ["s1map", "bool", "bytes"]), ("s1 wrap:double singular", ["s1", "wrap:double", "singular"]),
+             ("s1 float repeated", ["s1", "float", "repeated"])]
     if tier == "thorough":
         cats += [("s2 " + n, ["s2", n]) for n in ("repmsg", "wrappers")]
         cats += [("s1 %s %s" % (k, l), ["s1", k, l]) for k, l in (("message", "singular"), ("string", "optional"), ("double", "repeated"), ("enum", "oneof"))]
